@@ -4,4 +4,5 @@ import "verif/harness/internal/signsrv"
 
 func init() {
 	register("signsrv", func(a []string) { signsrv.Main(a) })
+	register("audit-stress", signsrv.AuditStress)
 }
